@@ -77,6 +77,9 @@ pub struct Shape {
     /// operations at even positions)
     #[serde(default)]
     pub fx_overwrite: bool,
+    /// every advice column and every lookup table column carries an annotation (names only: they must not influence keys)
+    #[serde(default)]
+    pub annotate: bool,
     /// number of additive-selector (trash) arguments (0..=2)
     pub trash: usize,
     /// number of advice columns with equality enabled (0..=3); instance columns
@@ -541,9 +544,17 @@ impl Circuit<F> for ShapeCircuit {
         }
 
         let mut tables = vec![];
+        if sh.annotate {
+            for (i, col) in a.iter().enumerate() {
+                meta.annotate_lookup_any_column(*col, || format!("advice {i} of the first phase"));
+            }
+        }
         let mut q_lookup = vec![];
         for i in 0..sh.lookups {
             let t = meta.lookup_table_column();
+            if sh.annotate {
+                meta.annotate_lookup_column(t, || format!("table {i}"));
+            }
             let q = meta.complex_selector();
             let col = a[i % 3];
             meta.lookup("tbl", |m| {
@@ -562,12 +573,20 @@ impl Circuit<F> for ShapeCircuit {
         let (q_any_in, q_any_tbl) = if sh.lookup_any > 0 {
             let qi = meta.complex_selector();
             let qt = meta.complex_selector();
+            let cross = sh.lookup_any == 2;
             meta.lookup_any("any", |m| {
                 let qi = m.query_selector(qi);
                 let qt = m.query_selector(qt);
                 let x = m.query_advice(a[0], Rotation::cur());
                 let t = m.query_advice(a[1], Rotation::cur());
-                vec![(qi * x, qt * t)]
+                if cross {
+                    // two pairs whose highest-degree input and highest-degree table expression sit in DIFFERENT pairs:
+                    // (x^2, x) must be a row (s, t^2) of the table, i.e. x = t^2 and s = t^4
+                    let s = m.query_advice(a[2], Rotation::cur());
+                    vec![(qi.clone() * x.clone() * x.clone(), qt.clone() * s), (qi * x, qt * t.clone() * t)]
+                } else {
+                    vec![(qi * x, qt * t)]
+                }
             });
             (Some(qi), Some(qt))
         } else {
@@ -750,10 +769,15 @@ impl Circuit<F> for ShapeCircuit {
                         Op::AnyTbl { v } => {
                             cfg.q_any_tbl.unwrap().enable(&mut r, 0)?;
                             r.assign_advice(|| "t", cfg.a[1], 0, || self.val(oi, 0, F::from(*v)))?;
+                            if self.shape.lookup_any == 2 {
+                                let v2 = F::from(*v) * F::from(*v);
+                                r.assign_advice(|| "s", cfg.a[2], 0, || self.val(oi, 1, v2 * v2))?;
+                            }
                         }
                         Op::AnyIn { v } => {
                             cfg.q_any_in.unwrap().enable(&mut r, 0)?;
-                            r.assign_advice(|| "x", cfg.a[0], 0, || self.val(oi, 0, F::from(*v)))?;
+                            let xv = if self.shape.lookup_any == 2 { F::from(*v) * F::from(*v) } else { F::from(*v) };
+                            r.assign_advice(|| "x", cfg.a[0], 0, || self.val(oi, 0, xv))?;
                         }
                         Op::Trash { j, x } => {
                             cfg.s_trash[*j].enable(&mut r, 0)?;
@@ -819,6 +843,7 @@ pub fn random_shape(seed: u64) -> Shape {
         tbl_nozero: rng.gen_range(0..3) == 0,
         fx_overwrite: rng.gen_range(0..3) == 0,
         fill_last: false,
+        annotate: seed % 3 == 0,
         trash: rng.gen_range(0..=2),
         perm: rng.gen_range(0..=3),
         seed,
